@@ -533,6 +533,29 @@ pub fn c04_state(rp: &Position, b: &Board, played: bool) -> Vec<Divergence> {
                 }
             }
         }
+        // two men of one colour but different kinds exchanged (king and queen, rook and bishop, ...):
+        // a different position whatever an equality shortcut may think
+        if rp.ep.is_none() {
+            let men: Vec<(u8, refchess::Col, refchess::Pc)> = (0..64u8).filter_map(|s| rp.at(s).map(|(c, p)| (s, c, p))).collect();
+            let mut swaps = 0;
+            'outer: for (i, a) in men.iter().enumerate() {
+                for b2 in men.iter().skip(i + 1) {
+                    if a.1 == b2.1 && a.2 != b2.2 && a.2 != refchess::Pc::P && b2.2 != refchess::Pc::P {
+                        let mut q = rp.clone();
+                        q.board[a.0 as usize] = Some((b2.1, b2.2));
+                        q.board[b2.0 as usize] = Some((a.1, a.2));
+                        q.rights = [false; 4];
+                        if rp.rights.iter().all(|x| !*x) {
+                            neighbours.push(q);
+                            swaps += 1;
+                            if swaps >= 3 {
+                                break 'outer;
+                            }
+                        }
+                    }
+                }
+            }
+        }
         for q in neighbours {
             if let Ok(nb) = parse_board(&q.to_fen()) {
                 if nb == *b && (nb.zobrist() != b.zobrist() || hash_trait_bytes(&nb) != hash_trait_bytes(b)) {
